@@ -112,6 +112,12 @@ def cases(r, n_status=6):
     for line, code, text in status_lines(r, b"NO", 3):
         out.append(("listscripts", (), line, {"status": "NO", "code": code, "text": text}))
     out.append(("capability", (), GREETING, {"status": "OK"}))
+    # the session's last command: LOGOUT answered OK, NO or — a server closing at once — BYE, in several shapes
+    for st in (b"OK", b"NO", b"BYE"):
+        for line, code, text in status_lines(r, st, 4):
+            out.append(("logout", (), line, {"status": st.decode(), "code": code, "text": text}))
+    out.append(("logout", (), b"BYE\r\n", {"status": "BYE", "code": None, "text": None}))
+    out.append(("logout", (), b'BYE (REFERRAL "sieve://other.example") "moved"\r\n', {"status": "BYE", "code": b'REFERRAL "sieve://other.example"', "text": b"moved"}))
     return out
 
 
